@@ -446,6 +446,8 @@ def _wavelet_array(f, inline, func):
         raise ValueError('mahotas.convolve.%s: Only works for 2D images' % func)
     if not inline:
         return f.copy()
+    if not f.flags.writeable:
+        raise ValueError('mahotas.convolve.%s: `inline` was requested, but the array is read-only' % func)
     return f
 
 
